@@ -135,6 +135,7 @@ PIPE_PROFILE = {
     'malformed': [0.0, 0.1],
     'card_names': ['True'],
     'task': ['ranking', 'ranking', 'identify_rare_values'],
+    'more_runs': 0.25,
     'cli_extra': {'rare_value_count_upper_bound': rare_thr,
                   'max_unique_hist_constraint': lambda rng, wl: rng.choice([None, None, None, 2, 5]),
                   'missing_value_symbols': lambda rng, wl: rng.choice([None, None, 'NA,{}'])},
